@@ -509,7 +509,9 @@ func (p *pair) syncCheck(phase string, out *outcome, budget time.Duration, force
 		}
 		healthy := hz.Kind == '+' && hz.Str == "OK"
 		markerSeen := mv.Kind == '$' && !mv.Null && mv.Str == nonce
-		binding := reconnected || markerSeen
+		// an evaluation with a forced reconnect is about that reconnect: the marker
+		// alone (delivered by the old session before it died) does not end it
+		binding := reconnected || (markerSeen && forceReconnect == nil)
 		claim := st.following && (st.caughtUp || healthy)
 		if !st.following {
 			out.inconclusive = phase + ": follower is not following (harness error)"
